@@ -679,6 +679,7 @@ func (w *World) opDerivePath() *Op {
 	locked := !w.Unlocked()
 	kp := waddrmgr.DerivationPath{InternalAccount: a.Num, Account: a.ChildIx, Branch: branch, Index: index, MasterKeyFingerprint: a.FP}
 	op := &Op{Kind: "derivepath", Name: fmt.Sprintf("derivepath %v/%d/%d/%d", s, a.Num, branch, index)}
+	var second *waddrmgr.DerivationPath
 	op.Run = func(ns walletdb.ReadWriteBucket) error {
 		sm := w.Scoped(s)
 		ma, err := sm.DeriveFromKeyPath(ns, kp)
@@ -718,10 +719,25 @@ func (w *World) opDerivePath() *Op {
 			if k3, err := sm.DeriveFromKeyPathCache(kp); err != nil || !eq(k3.Serialize(), e.Priv) {
 				op.CacheKeyWrong = true
 			}
+			// and the neighbouring path, so that the cache of this scope holds more than
+			// one key when the manager locks next
+			kp2 := kp
+			kp2.Index++
+			if e2, err := w.Expect(a, branch, kp2.Index); err == nil && e2.Priv != nil {
+				if k4, err := sm.DeriveFromKeyPathCache(kp2); err != nil || !eq(k4.Serialize(), e2.Priv) {
+					op.CacheKeyWrong = true
+				}
+				second = &kp2
+			}
 		}
 		return nil
 	}
-	op.Post = func() { w.Paths = append(w.Paths, PathRec{s, kp}) }
+	op.Post = func() {
+		w.Paths = append(w.Paths, PathRec{s, kp})
+		if second != nil {
+			w.Paths = append(w.Paths, PathRec{s, *second})
+		}
+	}
 	return op
 }
 
